@@ -35,6 +35,19 @@ def blocks():
     for a in atoms:
       for b in ('in4','in8'):
         out.append((f"tmp[{lhs}=u({a})+{b}]",[f"u = {ex(a)}",f"s.{lhs} @= u + {ex(b)}"]))
+  # ---- struct-typed signals (whole struct <-> Bits of equal / different width, fields as operands) and comparison results used as operands
+  for lhs,rhs in (('out4','st8'),('out8','st8'),('out16','st8'),('ost8','in8'),('ost8','in4'),('ost8','st8'),('out4','st8.x'),('out8','st8.x'),('ost8.x','in4'),('ost8.x','in8'),('ost8.y','st8.x'),
+                  ('out16','st16'),('out8','st16'),('out8','st16.q'),('out4','st16.p.x'),('out8','st16.p'),('out4','st16.p')):
+    out.append((f"struct-assign[{lhs}={rhs}]",[f"s.{lhs} @= s.{rhs}"]))
+  for lhs,a,b in (('out4','s.st8.x','s.in4'),('out4','s.st8.x','s.in8'),('out8','s.st8.x','s.in8'),('out8','s.st16.q','s.in8'),('out8','s.st16.q','s.st8.x'),('out4','s.st16.p.y','s.st8.x')):
+    for op in ('+','&'):
+      out.append((f"struct-bin[{lhs}={a}{op}{b}]",[f"s.{lhs} @= {a} {op} {b}"]))
+  for lhs,w in (('out8','s.in8'),('out4','s.in4'),('out1','s.c')):
+    for cmp in ('s.in4 == s.in4','s.in8 >= s.in8','s.in4 < 3'):
+      for op in ('&','+','^','=='):
+        tgt='out1' if op=='==' else lhs
+        out.append((f"cmp-operand[{tgt}={w}{op}({cmp})]",[f"s.{tgt} @= {w} {op} ( {cmp} )"]))
+        out.append((f"cmp-operand[{tgt}=({cmp}){op}{w}]",[f"s.{tgt} @= ( {cmp} ) {op} {w}"]))
   seen=set(); uniq=[]
   for n,b in out:
     if n not in seen: seen.add(n); uniq.append((n,b))
@@ -42,10 +55,11 @@ def blocks():
 
 def source(body):
   L=["class Top( Component ):","  def construct( s ):","    s.c = InPort( Bits1 ); s.in4 = InPort( Bits4 ); s.in8 = InPort( Bits8 ); s.in2 = InPort( Bits2 ); s.out2 = OutPort( Bits2 )",
-     "    s.out1 = OutPort( Bits1 ); s.out4 = OutPort( Bits4 ); s.out8 = OutPort( Bits8 )","    @update","    def up():"]+["      "+b for b in body]
+     "    s.out1 = OutPort( Bits1 ); s.out4 = OutPort( Bits4 ); s.out8 = OutPort( Bits8 )",
+     "    s.st8 = InPort( Inner ); s.st16 = InPort( Outer ); s.ost8 = OutPort( Inner ); s.out16 = OutPort( Bits16 )","    @update","    def up():"]+["      "+b for b in body]
   return '\n'.join(L)+'\n'
 
-WIDTH_MSG=("must have matching bitwidth","Bitwidth of LHS must be equal to RHS")
+WIDTH_MSG=("must have matching bitwidth","Bitwidth of LHS must be equal to RHS","-bit <> RHS")
 TRUNC_MSG=("is not a valid binop operand","is too wide","too wide for")
 
 def check_block(name,body,repo):
@@ -69,8 +83,10 @@ def check_block(name,body,repo):
         try:
           if c is None: top.sim_reset()
           else:
-            top.c @= c; top.in4 @= a4; top.in8 @= a8; top.in2 @= a4 & 3; top.sim_eval_combinational()
-        except ValueError as e:
+            top.c @= c; top.in4 @= a4; top.in8 @= a8; top.in2 @= a4 & 3
+            M=sys.modules[Top.__module__]; top.st8 @= M.Inner(a4,15-a4); top.st16 @= M.Outer(M.Inner(a4,a8&15),a8)
+            top.sim_eval_combinational()
+        except (ValueError,AssertionError) as e:
           msg=str(e)
           if any(w in msg for w in WIDTH_MSG): explicit_mismatch=explicit_mismatch or (c or 0,a4,a8,msg.strip()[:90])
           elif any(w in msg for w in TRUNC_MSG): other_width_error=other_width_error or (c or 0,a4,a8,msg.strip()[:90])
